@@ -5,11 +5,11 @@ import IndicatifModel.Model.DrawTarget
 namespace IndicatifModel
 
 /-- the painting loop never counts more than `H` rows of bars, and never less than it started with -/
-theorem paintLoop_real_bounds (fx : Fixes) (W H total : Nat) (nc : Bool) (lines : List Line) :
+theorem paintLoop_real_bounds (fx : Fixes) (W H total : Nat) (nc up : Bool) (lines : List Line) :
     ∀ (idx real : Nat), real ≤ H →
-      real ≤ (paintLoop fx W H total nc idx real lines).2.1 ∧
-      (paintLoop fx W H total nc idx real lines).2.1 ≤ H ∧
-      (paintLoop fx W H total nc idx real lines).2.1 ≤ real + visualLineCount W lines := by
+      real ≤ (paintLoop fx W H total nc up idx real lines).2.1 ∧
+      (paintLoop fx W H total nc up idx real lines).2.1 ≤ H ∧
+      (paintLoop fx W H total nc up idx real lines).2.1 ≤ real + visualLineCount W lines := by
   induction lines with
   | nil => intro idx real h; simp only [paintLoop, visualLineCount, List.map_nil, List.sum_nil, Nat.add_zero]; exact ⟨Nat.le_refl _, h, Nat.le_refl _⟩
   | cons l ls ih =>
@@ -42,9 +42,9 @@ theorem C19_llc_le_H (fx : Fixes) (ds : DrawState) (W H n : Nat) (h : n ≤ H) :
     (drawToTerm fx ds W H n).2 ≤ H := by
   unfold drawToTerm
   dsimp only
-  obtain ⟨_, b, c⟩ := paintLoop_real_bounds fx W H ds.lines.length (n == 0) ds.lines 0 0 (Nat.zero_le _)
-  have key : ∀ (c : Bool), (if c = true then (paintLoop fx W H ds.lines.length (n == 0) 0 0 ds.lines).2.1
-      else (paintLoop fx W H ds.lines.length (n == 0) 0 0 ds.lines).2.1 +
+  obtain ⟨_, b, c⟩ := paintLoop_real_bounds fx W H ds.lines.length (n == 0) ds.unparked ds.lines 0 0 (Nat.zero_le _)
+  have key : ∀ (c : Bool), (if c = true then (paintLoop fx W H ds.lines.length (n == 0) ds.unparked 0 0 ds.lines).2.1
+      else (paintLoop fx W H ds.lines.length (n == 0) ds.unparked 0 0 ds.lines).2.1 +
         (if ds.alignment = .bottom ∧ visualLineCount W ds.lines < n then n - visualLineCount W ds.lines else 0)) ≤ H := by
     intro c
     cases c with
@@ -67,5 +67,39 @@ theorem C19_history (fx : Fixes) (W H : Nat) (frames : List DrawState) :
     | nil => intro n h; exact h
     | cons ds rest ih => intro n h; exact ih _ (C19_llc_le_H fx ds W H n h)
   exact gen frames 0 (Nat.zero_le _)
+
+/-- **A frame after a cut-off frame whose rows were all kept starts on a fresh row** (repair of F33).
+When the previous frame was cut off at the terminal height (`unparked`) and nothing is to be erased
+(`n = 0`: its rows were handed over as zombie rows), the first thing written after the (empty) clearing
+sequence is a line break — the new frame does not continue in the last kept row, so the rows the
+`MultiProgress` later erases are exactly the rows it accounts for. -/
+theorem C19_fresh_row_after_cutoff (fx : Fixes) (hfp : fx.fpark = true) (ds : DrawState) (W H : Nat) (l : Line) (ls : List Line)
+    (hl : ds.lines = l :: ls) (hup : ds.unparked = true) (hmc : ds.moveCursor = false)
+    (hfits : ¬ (l.isBar = true ∧ wrappedHeight W l > H)) :
+    ∃ rest, (drawToTerm fx ds W H 0).1 = clearOps 0 ++ (TOp.writeLine [] :: TOp.writeStr l.gs :: rest) := by
+  unfold drawToTerm
+  have hc : (l.isBar && decide (0 + wrappedHeight W l > H)) = false := by
+    cases hb : l.isBar with
+    | false => simp
+    | true =>
+      have : ¬ (wrappedHeight W l > H) := fun h => hfits ⟨hb, h⟩
+      simp [this]
+  simp only [hmc, hl, Bool.false_eq_true, and_false, if_false, Nat.lt_irrefl, Nat.not_lt_zero, paintLoop, hc, hup, hfp,
+    beq_self_eq_true, Bool.and_self, ne_eq, not_true_eq_false, if_true, List.replicate_zero, List.append_nil, Nat.sub_self,
+    Nat.zero_sub, ite_self, List.nil_append, List.singleton_append, List.cons_append, List.append_assoc]
+  exact ⟨_, rfl⟩
+
+/-- … and a frame that is cut off after at least one bar row raises the flag (no filler was written) -/
+theorem C19_cutoff_raises_flag (fx : Fixes) (hfp : fx.fpark = true) (ds : DrawState) (W H n : Nat) (written fill : Nat)
+    (hp : (paintLoop fx W H ds.lines.length (n == 0) ds.unparked 0 0 ds.lines).2.2 = some (written, fill))
+    (hcut : written ≠ ds.lines.length) (hreal : 0 < (paintLoop fx W H ds.lines.length (n == 0) ds.unparked 0 0 ds.lines).2.1) :
+    unparkedAfter fx ds W H n = true := by
+  unfold unparkedAfter
+  simp only [hfp, Bool.not_true, Bool.false_eq_true, if_false, hp]
+  have h1 : (written == ds.lines.length) = false := by simpa using hcut
+  have h2 : ¬ ((paintLoop fx W H ds.lines.length (n == 0) ds.unparked 0 0 ds.lines).2.1 +
+      (if ds.alignment = .bottom ∧ visualLineCount W ds.lines < n then n - visualLineCount W ds.lines else 0) = 0) := by omega
+  simp only [h1, Bool.false_or, Bool.not_eq_true', beq_eq_false_iff_ne, ne_eq]
+  exact h2
 
 end IndicatifModel
